@@ -42,7 +42,7 @@ reg("C10", "runtime monitoring: differential of the real parser against ast.lite
     "Audit hooks see CPython-level events only; tuples/hex/underscore ints are outside the statement.", "5/C10")
 
 reg("C11", "runtime monitoring: reference-model oracle (stock tf_keras layer fed the layer's own quantizers applied to its weights) + quantizer-call monitor for accounting",
-    "640 (quick) / 8000 (thorough) generated layer instances over 12 layer kinds x geometry x quantizer choices per tensor role, dyadic weights and inputs: output must equal the stock layer on q_i(w_i) followed by the activation quantizer (exact on dyadic data), and the call monitor must see each reported quantizer applied to exactly its own weight tensor.",
+    "640 (quick) / 8000 (thorough) generated layer instances over 12 layer kinds x geometry x quantizer choices per tensor role, dyadic weights and inputs: output must equal the stock layer on q_i(w_i) followed by the activation quantizer (exact on dyadic data), and the call monitor must see each reported quantizer applied to exactly its own weight tensor; recurrent cases are also wrapped in QBidirectional, whose reported quantizers must be (by identity) the objects called while the layer runs, forward half first.",
     "QConv2DTranspose-family layers cannot run under TF 2.21; channels_last only.", "5/C11")
 
 reg("C12", "runtime monitoring: snapshot/compare hooks around model_quantize + per-layer oracle from an independent reading of the dictionary semantics",
@@ -70,7 +70,7 @@ reg("C17", "runtime contracts on AccumulatorFactory.make_accumulator, IAdder.mak
     "Types with int_bits > bits - sign are read as integers (f = 0), the reading under which the library's ternary/binary types are meaningful.", "5/C17")
 
 reg("C19", "runtime monitoring: brute-force loop-nest MAC counters as reference, spies (recording wrappers) on every energy helper and gate function, conservation / formula / selection oracles over recorded contributions",
-    "Generated quantized and plain models over kernel 1..5, strides 1..3, same/valid/causal, dilation, groups, channels 1..8, pooling and six merge types x memory placements {dram,sram,fixed}^2 x rd_wr_on_io x min_sram_size x quantizers: reported operation counts (qtools and estimate routes) == loop-nest counts; every energy entry >= 0 and equal to an independent re-evaluation of the documented formulas from the recorded arguments; total == sum of recorded contributions; extracted sums/profiles == sums of the selected entries; the gates consulted are the documented ones; global config and caller dictionaries unmodified.",
+    "Generated quantized and plain models over kernel 1..5, strides 1..3, same/valid/causal, dilation, groups, channels 1..8, pooling and six merge types x memory placements {dram,sram,fixed}^2 x rd_wr_on_io x min_sram_size x quantizers: reported operation counts (qtools and estimate routes) == loop-nest counts; every energy entry >= 0 and equal to an independent re-evaluation of the documented formulas from the recorded arguments; total == sum of recorded contributions; extracted sums/profiles == sums of the selected entries; the gates consulted are the documented ones; global config and caller dictionaries unmodified; geometry sweeps (strides / padding / dilation / static batch, a unit-stride transposed convolution) and cost settings keyed by Q class names, stock class names or default only.",
     "Reference counters are self-checked (two independent counters, executed all-ones Keras layer); a reference disagreement is a harness error, never a verdict.", "5/C19")
 
 reg("C20", "runtime monitoring: recording/replaying hyper-parameter stub that enumerates the decision tree of the real AutoQKHyperModel (DFS / product / pairwise+random), per-leaf oracle from an independent resolution of the limits; contracts on ForgivingFactor.delta",
